@@ -252,7 +252,13 @@ func (u *UnitsDefinition) parse(data string) (any, error) {
 	}
 	u.cacheMutex.Lock()
 	if u.reCache == nil {
-		u.updateReCache()
+		if err := u.updateReCache(); err != nil {
+			u.cacheMutex.Unlock()
+			return 0, &UnitParseError{
+				Message: "Cannot parse '" + data + "' as " + u.BaseUnitValue.NameLongPlural() + ": invalid units definition",
+				Cause:   err,
+			}
+		}
 	}
 	re := u.reCache
 	reSubExpNames := u.reSubExpNames
@@ -343,8 +349,9 @@ func (u *UnitsDefinition) handleParseMultiplier(
 	return intNumber, floatNumber, isFloat, nil
 }
 
-// updateReCache requires cacheMutex to be held by the caller.
-func (u *UnitsDefinition) updateReCache() {
+// updateReCache requires cacheMutex to be held by the caller. It fails if the units definition cannot be turned into
+// a parser (e.g. a negative multiplier in a definition received from a plugin).
+func (u *UnitsDefinition) updateReCache() error {
 	var parts []string
 	if u.MultipliersValue != nil {
 		for _, multiplier := range u.getSortedMultipliersCacheLocked() {
@@ -367,13 +374,17 @@ func (u *UnitsDefinition) updateReCache() {
 		regexp.QuoteMeta(u.BaseUnitValue.NameLongPlural()),
 	))
 	regex := "^\\s*" + strings.Join(parts, "\\s*") + "\\s*$"
-	re := regexp.MustCompile(regex)
+	re, err := regexp.Compile(regex)
+	if err != nil {
+		return err
+	}
 	reSubExpNames := map[string]int{}
 	for i, subExpName := range re.SubexpNames() {
 		reSubExpNames[subExpName] = i
 	}
 	u.reSubExpNames = reSubExpNames
 	u.reCache = re
+	return nil
 }
 
 func (u *UnitsDefinition) buildUnitParseError(data string) (any, error) {
